@@ -9,6 +9,7 @@ use core_lang::syntax::{
     terms::*,
 };
 use core_lang::traits::*;
+use printer::Print;
 
 use crate::context::shrink_context;
 use crate::names::shrink_identifier;
@@ -180,10 +181,22 @@ fn lift(statement: FsStatement, state: &mut ShrinkingState) -> Rc<axcut::syntax:
         });
     }
 
-    let label = fresh_identifier(
-        state.max_id,
-        &("lift_".to_string() + state.current_label + "_"),
-    );
+    // the label must not be printed like the label of any other top-level function
+    let label = loop {
+        let candidate = fresh_identifier(
+            state.max_id,
+            &("lift_".to_string() + state.current_label + "_"),
+        );
+        let printed = candidate.print_to_string(None);
+        if !state
+            .used_labels
+            .iter()
+            .any(|used| used.print_to_string(None) == printed)
+        {
+            state.used_labels.insert(candidate.clone());
+            break candidate;
+        }
+    };
     let context = shrink_context(context.into(), state.codata);
     // we substitute the fresh variables for the free ones in the body
     let body = statement.subst_sim(&subst).shrink(state);
